@@ -123,6 +123,22 @@ theorem Lat.Laws.le_foldl_mem (h : lat.Laws) (l : List L) (a x : L) (hx : x ∈ 
 theorem Lat.Laws.le_joinL (h : lat.Laws) (l : List L) (x : L) (hx : x ∈ l) : lat.le x (joinL lat l) :=
   h.le_foldl_mem l _ x hx
 
+theorem tabulate_eq {α : Type} (N : Nat) (f : Nat → α) : tabulate N f = f := by
+  funext v
+  unfold tabulate lookupTab
+  split
+  · simp
+  · rfl
+
+theorem Dense.reify_eq {L : Type} (G : Dense.Graph) (s : Dense.St L) : Dense.reify G s = s := by
+  unfold Dense.reify
+  simp only [tabulate_eq]
+
+theorem Sparse.reify_eq {L : Type} (P : Sparse.Prog L) (nv : Nat) (s : Sparse.St L) :
+    Sparse.reify P nv s = s := by
+  unfold Sparse.reify
+  simp only [tabulate_eq]
+
 /-! finite sums and counts over `0..k-1` (termination measures) -/
 
 def sumTo (f : Nat → Nat) : Nat → Nat
